@@ -6,8 +6,12 @@ get_headers), and the model is a pure function of (language, content), so nothin
 before can matter. The runtime counterpart - real hash randomisation, the process-wide
 State._id counter and compiled-pattern state surviving between files - is tied by running the
 real analysis in fresh interpreters under different PYTHONHASHSEEDs, on permuted file orders
-with malformed files interleaved, and comparing every per-file result with the model's; and by
-scanning the same tree twice."""
+with malformed files interleaved, and comparing every per-file result with the model's; by
+scanning the same tree twice; by a ladder of hash seeds (16+4 / 64+16) over tiny files whose header
+line carries every comment-opener neighbourhood of `nocl` (marker_files); and by calling the real
+`check_command` with several directory arguments in EVERY order on trees with nested .gitignore
+files (check_orders: fresh interpreters, all calls of a tree in one process, first call repeated
+at the end), each call judged against the model's analysis of every file alone."""
 import json
 import os
 import shutil
@@ -19,6 +23,7 @@ sys.path.insert(0, os.path.dirname(os.path.dirname(os.path.abspath(__file__))))
 import common
 import scan_real as sr
 import scan_streams
+import select_real as sel
 from props import C15
 
 ID = "C06"
@@ -137,6 +142,219 @@ def scan_tree_twice(ctx, fs):
         shutil.rmtree(root, ignore_errors=True)
 
 
+# ------------------------------------------------------------------ comment-opener neighbourhood x many hash seeds
+
+MARK_EXTRA = ["", "/", "!", "*", "#", ";", "-", "<", "@", ":", "\t"]
+
+
+def marker_files(ctx):
+    """one tiny file per (language, comment on the header line): the comment is the language's comment
+    opener, at most ONE further punctuation character, optional blank, the word `nocl` in some case.
+    Whether such a comment is a suppression marker is decided by the model (marker_recognition); the
+    real code must decide the same under EVERY hash seed (a table of openers held in a set, a dict
+    keyed by opener, ... would make the answer depend on the iteration order)."""
+    rnd = ctx.rng("markers")
+    out = []
+    for lang in sr.LANGS:
+        comments = []
+        for x in MARK_EXTRA:
+            for sp in ("", " "):
+                w = rnd.choice(["nocl", "NOCL", "NoCl", "nocl: generated"])
+                if lang == "Python":
+                    comments.append("#" + x + sp + w)
+                else:
+                    comments.append("//" + x + sp + w)
+                    comments.append("/*" + x + sp + w + " */")
+        for c in comments:
+            if lang == "Python":
+                code = "def keep(a):\n    return a\n\n\ndef f(a):  %s\n    a = a + 1\n    return a\n" % c
+            elif lang in ("Java", "C#"):
+                code = "class K {\n  int keep(int a) {\n    return a;\n  }\n  int f(int a) {  %s\n    a = a + 1;\n    return a;\n  }\n}\n" % c
+            elif lang in ("JavaScript", "TypeScript"):
+                code = "function keep(a) {\n  return a;\n}\nfunction f(a) {  %s\n  a = a + 1;\n  return a;\n}\n" % c
+            else:
+                code = "int keep(int a) {\n  return a;\n}\nint f(int a) {  %s\n  a = a + 1;\n  return a;\n}\n" % c
+            out.append((lang, code))
+    return out
+
+
+def marker_seeds(ctx):
+    """the hash-seed ladder for the (cheap) marker files: 0..15 (0..63) plus a few from the whole range"""
+    rnd = ctx.rng("marker-seeds")
+    return list(range(ctx.pick(16, 64))) + [rnd.randrange(2 ** 32) for _ in range(ctx.pick(4, 16))]
+
+
+# ------------------------------------------------------------------ check with several arguments, every order
+
+DIRS = ["app", "lib", "svc", "tools", "core"]
+SUBS = ["legacy", "gen", "v1"]
+FILE_STEMS = ["main", "util", "api", "old", "schema_gen", "build_gen"]
+FILE_EXT = [".py", ".js", ".c", ".ts", ".java"]
+LANG_OF_EXT = {".py": "Python", ".js": "JavaScript", ".c": "C", ".ts": "TypeScript", ".java": "Java"}
+
+
+def gen_order_case(rnd):
+    """a tree of 3-4 top-level directories (files with functions of 5..75 lines, names shared between the
+    directories; sub-directories), EVERY directory possibly with a `.gitignore` of its own (bare names,
+    `*suffix`, `sub/`, negations, anchored `/name` - all drawn from names that occur elsewhere in the tree),
+    and possibly a root `.gitignore`. Only the root one counts (C11); the nested ones are legal content."""
+    dirs = rnd.sample(DIRS, rnd.choice([3, 3, 4]))
+    files = {}        # rel path -> bytes
+
+    def fill(pre, n):
+        for _ in range(n):
+            ext = rnd.choice(FILE_EXT)
+            name = rnd.choice(FILE_STEMS) + ext
+            lengths = [rnd.choice([5, 31, 40, 61, 75]) for _ in range(rnd.choice([1, 1, 2]))]
+            files["/".join(pre + [name])] = sel.source_for(ext, lengths)
+    for d in dirs:
+        fill([d], rnd.choice([1, 2, 3]))
+        for s in rnd.sample(SUBS, rnd.choice([0, 1, 1, 2])):
+            fill([d, s], rnd.choice([1, 2]))
+    names = sorted({c for p in files for c in p.split("/")})
+    stems = sorted({"*" + n[i:] for n in names for i in range(len(n)) if n[i] in "._" and "." in n})
+
+    def lines(k):
+        out = []
+        for _ in range(k):
+            r = rnd.random()
+            if r < 0.35:
+                out.append(rnd.choice(stems))
+            elif r < 0.6:
+                out.append(rnd.choice([n for n in names if "." in n]))
+            elif r < 0.8:
+                out.append(rnd.choice(SUBS) + "/")
+            elif r < 0.9:
+                out.append("!" + rnd.choice(names))
+            else:
+                out.append("/" + rnd.choice(names))
+        return out
+    ignores = {}
+    for d in dirs:
+        if rnd.random() < 0.7:
+            ignores[d] = lines(rnd.choice([1, 2, 3]))
+        for p in files:
+            c = p.split("/")
+            if len(c) == 3 and c[0] == d and rnd.random() < 0.2:
+                ignores[d + "/" + c[1]] = lines(1)
+    root_ignore = [rnd.choice([n for n in names if "." in n])] if rnd.random() < 0.3 else []
+    # argument lists: every order of the directories (all 6 for three, a sample for four), every directory alone,
+    # the root, and lists mixing a file argument with directories that do not contain it
+    import itertools
+    perms = [list(p) for p in itertools.permutations(dirs)]
+    if len(perms) > 8:
+        perms = rnd.sample(perms, 8)
+    runs = perms + [list(p) for p in itertools.permutations(dirs, 2)][:6] + [[d] for d in dirs] + [["."]]
+    for _ in range(2):
+        f = rnd.choice(sorted(files))
+        rest = [d for d in dirs if d != f.split("/")[0]]
+        mix = rest + [f]
+        rnd.shuffle(mix)
+        runs.append(mix)
+    runs.append(list(runs[0]))          # the first call once more at the end (same process, same arguments)
+    return {"stream": "check-orders", "files": {p: b.decode("latin-1") for p, b in files.items()}, "gitignores": ignores,
+            "root_gitignore": root_ignore, "runs": runs}
+
+
+def order_expected(case, model_ms):
+    """per argument list: the files `check` must analyse and the lines it must print - from the property
+    text (a file's result depends on its language and content only; root exclusions as in C11) and the
+    MODEL's measurements of every file alone"""
+    out = []
+    for args in case["runs"]:
+        read, listed = [], {}
+        for a in args:
+            for p in sorted(case["files"]):
+                comps = p.split("/")
+                under = (a == "." or p == a or p.startswith(a + "/"))
+                if not under or sel.spec_excluded(comps, case["root_gitignore"]):
+                    continue
+                read.append(p)
+                risks = sorted([m for m in model_ms[p] if m[5] > 30], key=lambda m: -m[5])
+                listed[p] = [[p, m[1], m[2], m[5], m[0]] for m in risks]
+        code = 1 if any(l[3] > 60 for ls in listed.values() for l in ls) else 0
+        out.append({"read": sorted(read), "listed": listed, "code": code})
+    return out
+
+
+def run_check_worker(root, runs, hashseed):
+    env = dict(os.environ, PYTHONHASHSEED=str(hashseed), COLUMNS="300")
+    p = subprocess.run([sys.executable, os.path.join(common.VERIF, "harness", "c06_worker.py"), "check"],
+                       input=json.dumps({"root": root, "runs": runs}), capture_output=True, text=True, env=env, timeout=600)
+    if p.returncode != 0:
+        return None, p.stderr[-500:]
+    return json.loads(p.stdout)["results"], None
+
+
+def materialize_order_case(case):
+    root = os.path.realpath(tempfile.mkdtemp(prefix="c06o_"))
+    for p, text in case["files"].items():
+        os.makedirs(os.path.join(root, os.path.dirname(p)), exist_ok=True)
+        with open(os.path.join(root, p), "wb") as f:
+            f.write(text.encode("latin-1"))
+    for d, ls in case["gitignores"].items():
+        with open(os.path.join(root, d, ".gitignore"), "w") as f:
+            f.write("\n".join(ls) + "\n")
+    if case["root_gitignore"]:
+        with open(os.path.join(root, ".gitignore"), "w") as f:
+            f.write("\n".join(case["root_gitignore"]) + "\n")
+    return root
+
+
+def judge_order_case(case, hashseed, only_run=None):
+    """-> (failures, number of calls judged)"""
+    paths = sorted(case["files"])
+    reqs = [sr.scan_request(LANG_OF_EXT[os.path.splitext(p)[1]], case["files"][p].encode("latin-1").decode("utf-8")) for p in paths]
+    model_ms = {p: (sr.decode_scan(m) or ([], 0))[0] for p, m in zip(paths, sr.model_scan_many(reqs, shards=1))}
+    c = case if only_run is None else dict(case, runs=[only_run])
+    exp = order_expected(c, model_ms)
+    root = materialize_order_case(case)
+    try:
+        res, err = run_check_worker(root, c["runs"], hashseed)
+    finally:
+        shutil.rmtree(root, ignore_errors=True)
+    small = {k: case[k] for k in ("stream", "files", "gitignores", "root_gitignore")}
+    if res is None:
+        return [{"input": dict(small, hashseed=hashseed, args=None), "observed": err, "required": "check completes"}], 0
+    fails = []
+    for k, (args, r, e) in enumerate(zip(c["runs"], res, exp)):
+        bad = []
+        if r["error"]:
+            bad.append("check raised " + r["error"])
+        if sorted(r["read"]) != e["read"]:
+            bad.append("files analysed: missing %s, unexpected %s" % (sorted(set(e["read"]) - set(r["read"]))[:4], sorted(set(r["read"]) - set(e["read"]))[:4]))
+        got = {}
+        for l in r["listed"]:
+            got.setdefault(l[0], []).append(list(l))
+        for p in sorted(set(got) | set(e["listed"])):
+            if got.get(p, []) != e["listed"].get(p, []):
+                bad.append("listed for %s: %s, required (the analysis of that file alone) %s" % (p, [x[1:] for x in got.get(p, [])][:3], [x[1:] for x in e["listed"].get(p, [])][:3]))
+        if not r["error"] and r["files_checked"] != len(e["read"]):
+            bad.append("%s files checked, required %d" % (r["files_checked"], len(e["read"])))
+        if not r["error"] and r["code"] != e["code"]:
+            bad.append("exit code %s, required %d" % (r["code"], e["code"]))
+        if bad:
+            fails.append({"input": dict(small, hashseed=hashseed, args=args, earlier_calls_in_this_process=c["runs"][:k][-3:]),
+                          "observed": {"read": r["read"][:12], "listed": r["listed"][:6], "files_checked": r["files_checked"], "code": r["code"]},
+                          "required": bad[:6]})
+    return fails, len(res)
+
+
+def check_orders(ctx):
+    rnd = ctx.rng("check-orders")
+    cases = [gen_order_case(rnd) for _ in range(ctx.pick(8, 80))]
+    seeds = ctx.pick([0, 3], [0, 1, 3, 7])
+    jobs = [(c, s) for i, c in enumerate(cases) for s in (seeds if ctx.thorough else [seeds[i % len(seeds)]])]
+    from concurrent.futures import ThreadPoolExecutor
+    with ThreadPoolExecutor(max_workers=12) as ex:
+        res = list(ex.map(lambda j: judge_order_case(*j), jobs))
+    fails = [f for fs_, _ in res for f in fs_]
+    fails.sort(key=lambda f: len(json.dumps(f["input"])))
+    stats = {"trees": len(cases), "interpreters": len(jobs), "check_calls": sum(n for _, n in res),
+             "nested_gitignores": sum(len(c["gitignores"]) for c in cases), "root_gitignores": sum(1 for c in cases if c["root_gitignore"])}
+    return fails, stats
+
+
 def correspond(ctx):
     from concurrent.futures import ThreadPoolExecutor
     fs = files(ctx)
@@ -153,12 +371,23 @@ def correspond(ctx):
     else:
         jobs = [(s, orders[i % len(orders)]) for i, s in enumerate(seeds)] + [(7, o) for o in orders]
 
+    # the marker files (tiny) go through MANY hash seeds: appended to `fs`, analysed in their own interpreters
+    n_main = len(fs)
+    mk = [(l, c) for (l, c) in marker_files(ctx)]
+    mk_model = sr.model_scan_many([sr.scan_request(l, c) for (l, c) in mk])
+    for i, m in enumerate(mk_model):
+        ref[n_main + i] = m
+    fs = fs + mk
+    mk_order = list(range(n_main, len(fs)))
+    mseeds = marker_seeds(ctx)
+    mjobs = [(s, mk_order if k % 2 == 0 else list(reversed(mk_order))) for k, s in enumerate(mseeds)]
+
     def one(job):
         s, o = job
         res, err = run_worker([fs[i] for i in o], s)
         return (s, o, res, err)
     with ThreadPoolExecutor(max_workers=16) as ex:
-        results = list(ex.map(one, jobs))
+        results = list(ex.map(one, jobs + mjobs))
     dis, fails = [], []
     evals = 0
     nontrivial = set()
@@ -178,11 +407,17 @@ def correspond(ctx):
     t = scan_tree_twice(ctx, fs)
     if t:
         fails.append({"input": {"stream": "tree"}, "observed": t, "required": "reports equal up to uuid, timestamp and file order"})
+    # the smallest failing files first (the marker files are 7-9 lines)
+    fails.sort(key=lambda f: len(json.dumps(f["input"], default=str)))
+    ofails, ostats = check_orders(ctx)
+    fails = ofails[:10] + fails
+    evals += ostats["check_calls"]
     return {
         "evaluations": evals + 2, "distinct_nontrivial": len(nontrivial),
-        "rule": "%d files (canonical, malformed incl. ones that abort matching midway, corpus) analysed in %d fresh interpreters: PYTHONHASHSEED in %s x file orders (identity, reversed, random permutations); every per-file result compared with the model's single result; plus two subprocess scans of one tree under different hash seeds; non-trivial = distinct (file, hash seed) pairs with at least one function" % (len(fs), len(jobs), seeds if len(seeds) < 8 else "0..29,12345,999983"),
+        "rule": "%d files (canonical, malformed incl. ones that abort matching midway, corpus) analysed in %d fresh interpreters: PYTHONHASHSEED in %s x file orders (identity, reversed, random permutations); every per-file result compared with the model's single result; plus two subprocess scans of one tree under different hash seeds; non-trivial = distinct (file, hash seed) pairs with at least one function; PLUS %d marker files (per language: comment opener + at most one further punctuation character + `nocl`, on a header line) in %d further interpreters (hash seeds 0..%d and %d drawn from 0..2^32-1) against the model; PLUS check-orders: %d trees with nested .gitignore files, the real check_command called in %d fresh interpreters with the top-level directories as arguments in every order (pairs, single directories, the root, file + directory lists, the first list again at the end of the same process): %d calls, each judged against the model's analysis of every file alone" % (n_main, len(jobs), seeds if len(seeds) < 8 else "0..29,12345,999983", len(mk), len(mjobs), ctx.pick(16, 64) - 1, ctx.pick(4, 16), ostats["trees"], ostats["interpreters"], ostats["check_calls"]),
         "samples": [{"hashseed": s, "order": o[:8], "first_result": (res or [""])[0][:60]} for (s, o, res, e) in results[:3]],
-        "exhaustive": False, "distribution": {"files": len(fs), "interpreters": len(jobs), "hash_seeds": len(seeds), "orders": len(orders)},
+        "exhaustive": False, "distribution": {"files": n_main, "interpreters": len(jobs), "hash_seeds": len(seeds), "orders": len(orders),
+                                              "marker_files": len(mk), "marker_hash_seeds": len(mseeds), "check_orders": ostats},
         "disagreements": dis[:30], "oracle_failures": fails[:30],
     }
 
@@ -194,6 +429,13 @@ def search(ctx, hints):
 
 def replay(payload):
     inp = payload["input"]
+    if inp.get("stream") == "check-orders" and inp.get("args"):
+        case = dict({k: inp[k] for k in ("stream", "files", "gitignores", "root_gitignore")}, runs=[])
+        fails, _ = judge_order_case(case, inp["hashseed"], only_run=inp["args"])
+        print("check %s (PYTHONHASHSEED=%s; nested .gitignore files: %s)" % (" ".join(inp["args"]), inp["hashseed"], inp["gitignores"]))
+        for f in fails:
+            print("observed: %s\nviolated: %s" % (f["observed"], f["required"]))
+        return not fails
     if inp.get("stream") == "tree" or "language" not in inp:
         print("tree/worker level failure: re-run the check"); return False
     cases = [tuple(x) for x in inp.get("predecessors", [])] + [(inp["language"], inp["code"])]
